@@ -262,7 +262,7 @@ func main() {
 						}
 						if _, f, ok := sel(c.Fun); ok && f == "WriteString" && len(c.Args) == 1 {
 							if inner, ok := c.Args[0].(*ast.CallExpr); ok {
-								if r, m, ok := sel(inner.Fun); ok && r == "results" && (m == "Json" || m == "FormattedJson") {
+								if r, m, ok := sel(inner.Fun); ok && r != "" && (m == "Json" || m == "FormattedJson") {
 									writes++
 									if truncateCalled < 0 {
 										truncateCalled = 0
